@@ -43,7 +43,7 @@ type vCaseC23 struct {
 }
 
 var (
-	vHostsC23 = []string{"h1", "h2", "h3"}
+	vHostsC23 = []string{"h1", "H1", "h2"} // two hosts that differ only in letter case: they are different hosts (and groups)
 	vPathsC23 = [][]string{{"/data"}, {"/data", "/etc"}, {"/home"}}
 	vTagsC23  = []string{"a", "b", "c"}
 )
